@@ -8,7 +8,8 @@ RULE = ("non-trivial = a 3-D rotation / axis-relative spherical-coordinate case 
         "(polar distance of the normalised axis) or has length outside [0.1,10], or a rotation with |alpha| > 2 pi, "
         "or axis-relative spherical coordinates with r outside [1e-3,1e3], "
         "or whose argument objects (axis, rotated vector, multiplied matrices) reach the call through a non-empty call history, "
-        "or a history of at least two calls made in one pristine process (`seq`), or a product of at least two rotation matrices (`rotchain`); "
+        "or a history of at least two calls made in one pristine process (`seq`), or a product of at least two rotation matrices (`rotchain`, `chaindt`), "
+        "or the library's Determinant() / Trace() of a matrix with at least three rows (`matdt`: the Laplace recursion is exercised); "
         "guard requests (wrong dimension / axis size) count when they exit; distinct by case text")
 LEVEL_TEXT = ("Theorems (Coq, over the reals, for every angle and every non-zero axis of any length): the 2-D and 3-D matrices returned by the "
               "model of Rotation_Matrix are orthogonal (R^T R = R R^T = 1, all entries), have determinant one, the 3-D rotation fixes the axis and its unit vector, "
@@ -40,6 +41,15 @@ LEVEL_TEXT = ("Theorems (Coq, over the reals, for every angle and every non-zero
               "any number of times in any order, is a positive multiple of the vector it was constructed from and both functions answer as for that vector (C16_history_keeping_direction; generated as `direction-keeping` histories, "
               "whose answers S4 evaluates against the original vector as well).  These model functions are tied to the code by the new operations `rotchain` (the library's Identity_Matrix, operator* and Rotation_Matrix for 0 .. 24 factors, bit-identical, "
               "with S4 clauses: product orthogonal / determinant one, columns = factors applied in turn, product = rotation by the sum for factors about one direction and in 2-D) and `rotangle` (Angle(v, R v) against |alpha| modulo whole turns). "
+              "The library's own observers (C16_Proofs_Det.v): [mdet] / [mtrace] mirror Matrix::Determinant() (recursive Laplace expansion along the first row through Sub_Matrix, sizes 1 and 2 special-cased) and Matrix::Trace(); "
+              "theorems: Rotation_Matrix(alpha, 3, axis).Determinant() = 1 and .Trace() = 1 + 2 cos(alpha) for every non-zero axis, 1 and 2 cos(alpha) in 2-D; by induction over the factors, Determinant() of the product of ANY number of 3-D rotations about ANY non-zero axes is 1, "
+              "Trace() of a product of factors along one direction is 1 + 2 cos(sum of the angles), and Determinant() = 1, Trace() = 2 cos(sum) for any number of 2-D factors (C16_determinant_and_trace_by_the_library); "
+              "for EVERY number type and EVERY size n, by induction over the recursion depth: Determinant() returns (no exit, fuel never exhausted) for every well-formed n x n matrix, Trace() returns for rows = columns, both end the process exactly for rows <> columns (C16_determinant_trace_guards); "
+              "a product of any number of rotations about one direction turns the axis-relative spherical vector of (r, theta, phi) into that of (r, theta, phi + sum of the angles) (C16_rotation_chain_turns_spherical_vector); "
+              "the 2-D rotation turns every non-zero vector by alpha as measured by the library's Angle: Angle(v, R v) = Angle(R v, v) = |alpha| on [-pi, pi] (C16_rotation2_turns_by_alpha; a theorem only - the 2-D Angle is exercised by the `angle` cases, not by an operation of its own). "
+              "Tied to the code by the operations `rotdt` (Determinant() and Trace() of one Rotation_Matrix, 2-D and 3-D, every kind of axis, guards), `chaindt` (of the library-built product of 0 .. 24 rotations) and `matdt` (of arbitrary rectangular matrices with 1 .. 6 rows: "
+              "integer, Gaussian, sparse, badly scaled, singular; non-square shapes must end the process), bit-identical, with S4 clauses: Determinant() = 1 and Trace() = 1 + 2 cos / 2 cos to a-priori slack, Trace() of same-direction products against the sum of the angles, "
+              "Determinant() against an exact rational determinant, Trace() against the exactly summed diagonal.  NOT modelled: Matrix::Inverse() (Gauss-Jordan with pivoting) and Matrix::Orthogonal() (an exact == of doubles) - 'transpose equals inverse' is a theorem about the library's products only; the value of Determinant() for sizes above 3 is tested (matdt), not proved equal to the Leibniz determinant. "
               "Not theorems: everything about rounding (orthogonality etc. 'to rounding', the behaviour near the poles in floating point, underflow of ev0^2+ev1^2, acos of a quotient an ulp above 1), "
               "and that the C++ objects carry no state beyond their components (the model has none by construction). "
               "Both are covered by the differential run of the extracted model against the library (bit-identical) - every Vector argument also as ONE live object taken through a generated "
@@ -398,6 +408,10 @@ def _decode(line):
         elif op == "rotchain":
             d.update(dim=cur.int()); n = cur.int(); d["factors"] = [(cur.num(), cur.lst()) for _ in range(n)]
         elif op == "rotangle": d.update(alpha=cur.num()); d["axis"] = vec3(); d["v"] = vec3()
+        elif op == "rotdt": d.update(alpha=cur.num(), dim=cur.int()); d["axis"] = cur.lst()
+        elif op == "chaindt":
+            d.update(dim=cur.int()); n = cur.int(); d["factors"] = [(cur.num(), cur.lst()) for _ in range(n)]
+        elif op == "matdt": d["M"] = [cur.lst() for _ in range(cur.int())]
     except _Exit:
         d["exit"] = True
     return d
@@ -849,6 +863,33 @@ def _chain_cases(rng, n_cases, nmax):
     return cs
 
 
+def _dt_cases(rng, big):
+    """the library's own Determinant() (recursive Laplace expansion) and Trace(): of one rotation, of products of rotations, and of
+    arbitrary rectangular matrices of 1 .. 6 rows (ties the recursive model for every size; non-square shapes must end the process)"""
+    cs = []
+    pool = _axes(rng, 400 if big else 40)
+    for axis, tag in (pool if big else rng.sample(pool, min(len(pool), 70))):
+        cs.append(Case(f"rotdt {hx(_angle(rng))} 3 {flist(axis)}", ("rotdt", tag)))
+    for _ in range(300 if big else 25):
+        cs.append(Case(f"rotdt {hx(_angle(rng))} 2 {flist(rng.choice([[], [0.0, 0.0, 1.0], [1.0]]))}", ("rotdt", "rot2")))
+    for dim, ax in ((0, [0.0, 0.0, 1.0]), (4, [0.0, 0.0, 1.0]), (3, [1.0, 0.0]), (3, [0.0, 0.0, 1.0, 0.0]), (-3, [])):
+        cs.append(Case(f"rotdt {hx(0.3)} {dim} {flist(ax)}", ("rot-guard",)))
+    for c in _chain_cases(rng, 600 if big else 50, 24 if big else 9):
+        cs.append(Case("chaindt" + c.line[len("rotchain"):], ("chaindt",) + tuple(c.tags[1:])))
+    for _ in range(1500 if big else 90):
+        n = rng.choice([1, 2, 3, 3, 4, 4, 5, 6]); m = n if rng.random() < 0.85 else rng.choice([k for k in range(1, 7) if k != n])
+        kind = rng.choice(["int", "int", "gauss", "sparse", "scaled"])
+        def ent():
+            if kind == "int": return float(rng.randint(-4, 4))
+            if kind == "sparse": return rng.choice([0.0, 0.0, 1.0, -1.0, rng.gauss(0, 1)])
+            if kind == "scaled": return rng.gauss(0, 1) * 10 ** rng.uniform(-20, 20)
+            return rng.gauss(0, 1)
+        M = [[ent() for _ in range(m)] for _ in range(n)]
+        if kind == "int" and n == m and rng.random() < 0.3: M[-1] = list(M[0])          # a singular matrix
+        cs.append(Case(f"matdt {_fmt_tab(M)}", ("matdt", f"matdt-{n}x{m}" if n != m else f"matdt-square-{n}", "matdt-" + kind)))
+    return cs
+
+
 def generate(rng, tier):
     cs = []
     big = tier != "quick"
@@ -963,6 +1004,9 @@ def generate(rng, tier):
     cs.append(Case(f"cross {flist([1.0, 0.0])} {flist([1.0, 0.0, 0.0])}", ("cross-guard",)))
     # ---- histories of calls in one pristine process
     cs += _seq_cases(rng, 1500 if big else 150)
+    # ---- the library's own Determinant() / Trace() of rotations, of their products, and of matrices of every size (appended last: the
+    #      random stream of the older regions is unchanged)
+    cs += _dt_cases(rng, big)
     return cs
 
 
@@ -989,7 +1033,9 @@ def nontrivial(c, io):
     if d["nsteps"] > 0: return True
     if op in ("rot", "rotdef"): return (d["dim"] == 3 and (ax_nt(d["axis"]) or abs(d["alpha"]) > 2 * PI)) or (d["dim"] == 2 and abs(d["alpha"]) > 2 * PI)
     if op == "rotcomp": return ax_nt(d["axis"]) or abs(d["a"]) > 2 * PI or abs(d["b"]) > 2 * PI
-    if op == "rotchain": return len(d["factors"]) >= 2
+    if op in ("rotchain", "chaindt"): return len(d["factors"]) >= 2
+    if op == "rotdt": return (d["dim"] == 3 and (ax_nt(d["axis"]) or abs(d["alpha"]) > 2 * PI)) or (d["dim"] == 2 and abs(d["alpha"]) > 2 * PI)
+    if op == "matdt": return len(d["M"]) >= 3
     if op == "rotangle": return ax_nt(d["axis"]) or abs(d["alpha"]) > 2 * PI
     if op == "rotsph" and not 1e-3 <= d["r"] <= 1e3: return True
     if op in ("rotapply", "rotback", "rotaxis", "rotsph", "sphrot"): return ax_nt(d["axis"]) or abs(d["alpha"]) > 2 * PI
@@ -1257,6 +1303,73 @@ def _chain_checks(d, o, out):
                 out.append(("rot3:composition", f"the product of {n} rotations about {fs[0][1]!r} by {[a for a, _ in fs]!r} has column {j} = {[P[i][j] for i in range(3)]!r}, the rotation by the sum {exact!r} has {ref!r}")); break
 
 
+def _exact_det(M):
+    """the determinant of a square matrix of doubles, exactly (fraction-free expansion over the rationals)"""
+    from fractions import Fraction
+    A = [[Fraction(x) for x in r] for r in M]; n = len(A); det = Fraction(1)
+    for i in range(n):
+        p = next((k for k in range(i, n) if A[k][i] != 0), None)
+        if p is None: return Fraction(0)
+        if p != i: A[i], A[p] = A[p], A[i]; det = -det
+        det *= A[i][i]
+        for k in range(i + 1, n):
+            f = A[k][i] / A[i][i]
+            if f != 0: A[k] = [A[k][j] - f * A[i][j] for j in range(n)]
+    return det
+
+
+def _dt_checks(d, o, exited, out):
+    """Determinant() and Trace() asked of the library's own objects.  A 3x3 Laplace expansion of entries of magnitude <= 1 carries < 16 rounding
+    errors on top of the entries' own (64 eps for a rotation, (n + 1) 64 eps for a product of n, as in the single-matrix clauses)."""
+    op = d["op"]
+    if op == "matdt":
+        M = d["M"]; n = len(M); sq = all(len(r) == n for r in M)
+        if not sq:
+            if not exited: out.append(("matdt:guard", f"Determinant() / Trace() of a {n}x{len(M[0])} matrix returned"))
+            return
+        if exited: out.append(("matdt:exit", f"Determinant() of a square {n}x{n} matrix terminated the process")); return
+        if not all(math.isfinite(x) for r in M for x in r): return
+        det, tr = o[0], o[1]
+        B = 1.0
+        for r in M: B *= math.fsum(abs(x) for x in r)
+        ref = float(_exact_det(M))
+        # every one of the n! terms goes through <= 3 n roundings on its way up the recursion; the terms sum to at most B in magnitude
+        if math.isfinite(B) and B > 1e-280 and not abs(det - ref) <= 4 * n * n * EPS * B:
+            out.append(("matdt:determinant", f"Determinant() of {M!r} is {det!r}, exactly {ref!r}"))
+        dg = [M[i][i] for i in range(n)]; rt = math.fsum(dg)
+        if not abs(tr - rt) <= n * EPS * math.fsum(abs(x) for x in dg): out.append(("matdt:trace", f"Trace() of {M!r} is {tr!r}, the diagonal sums to {rt!r}"))
+        return
+    if op == "rotdt":
+        alpha, dim, axis = d["alpha"], d["dim"], d["axis"]
+        valid = dim == 2 or (dim == 3 and len(axis) == 3)
+        if not valid:
+            if not exited: out.append(("rot:guard", f"Rotation_Matrix accepted dim={dim} with a {len(axis)}-component axis"))
+            return
+        if exited: out.append(("rotdt:exit", "Determinant() / Trace() of a valid rotation terminated the process")); return
+        if dim == 3 and (not any(axis) or not all(math.isfinite(x) for x in axis)): return
+        det, tr = o[0], o[1]; want = (1.0 if dim == 3 else 0.0) + 2.0 * math.cos(alpha)
+        if not abs(det - 1.0) <= 80 * EPS: out.append((f"rot{dim}:determinant", f"Rotation_Matrix({alpha!r}, {dim}, {axis!r}).Determinant() = {det!r}"))
+        if not abs(tr - want) <= 80 * EPS: out.append((f"rot{dim}:trace", f"Rotation_Matrix({alpha!r}, {dim}, {axis!r}).Trace() = {tr!r}, {'1 + ' if dim == 3 else ''}2 cos(alpha) = {want!r}"))
+        return
+    dim, fs = d["dim"], d["factors"]; n = len(fs)
+    if exited: out.append(("chaindt:exit", "Determinant() / Trace() of a product of valid rotations terminated the process")); return
+    det, tr = o[0], o[1]
+    sl = (n + 1) * 64 * EPS + 16 * EPS
+    exact = math.fsum(a for a, _ in fs); mag = sum(abs(a) for a, _ in fs); sumsl = (n * mag + abs(exact)) * EPS
+    if dim == 3 and any(len(ax) != 3 or not any(ax) or not all(math.isfinite(x) for x in ax) for _, ax in fs): return
+    if not abs(det - 1.0) <= 3 * sl: out.append((f"rot{dim}:determinant", f"the product of {n} {dim}-D rotations has Determinant() = {det!r}"))
+    if dim == 2:
+        if not abs(tr - 2.0 * math.cos(exact)) <= 2 * (sl + sumsl):
+            out.append(("rot2:composition", f"the product of {n} 2-D rotations has Trace() = {tr!r}, 2 cos(sum of the angles) = {2.0 * math.cos(exact)!r}"))
+        return
+    if not -1.0 - 3 * sl <= tr <= 3.0 + 3 * sl: out.append(("rot3:trace", f"the product of {n} rotations has Trace() = {tr!r} outside [-1, 3]"))
+    units = [_unit(ax) for _, ax in fs]
+    if n >= 1 and all(max(abs(units[k][i] - units[0][i]) for i in range(3)) <= 4 * EPS for k in range(n)):
+        want = 1.0 + 2.0 * math.cos(exact)
+        if not abs(tr - want) <= 3 * (sl + sumsl):
+            out.append(("rot3:composition", f"the product of {n} rotations about {fs[0][1]!r} by {[a for a, _ in fs]!r} has Trace() = {tr!r}, 1 + 2 cos(sum) = {want!r}"))
+
+
 def predicates(c, io):
     """S4: the property's own clauses evaluated on the implementation's output."""
     out = []
@@ -1376,6 +1489,8 @@ def predicates(c, io):
             u = w; R, _ = _mat(o[4:])
             if any(u) and all(math.isfinite(x) for x in u) and 1e-150 < math.sqrt(_dot(u, u)) < 1e150:
                 _rot3_matrix_checks(R, d["alpha"], u, out, f" (axis {u!r}, a vector returned by Spherical_Coordinates)")
+    elif op in ("rotdt", "chaindt", "matdt"):
+        _dt_checks(d, o, exited, out)
     elif op == "rotchain":
         if exited: return [("rotchain:exit", "a product of valid rotations terminated the process")]
         _chain_checks(d, o, out)
